@@ -173,11 +173,42 @@ Fixpoint keep_sel {A} (sel : list bool) (l : list A) : list A :=
   | _, _ => []
   end.
 
+(* the built-in ToUpper read at table level: every string / enum cell of the source column upper-cased through the
+   case's table, null staying null; the result has the source's type (TableSpec.tapply_instr leaves built-ins open) *)
+Definition upper_cell (ut : upper_table) (c : cell) : outcome cell :=
+  match c with
+  | CStr (Some b) => do u <- upper_of ut b; Ok (CStr (Some u))
+  | CEnum (Some b) => do u <- upper_of ut b; Ok (CEnum (Some u))
+  | other => Ok other
+  end.
+
+Definition tapply_instr_ut (ut : upper_table) (t : table) (i : instr) : option (option table) :=
+  match tapply_instr t i with
+  | Some None =>
+      match ifn i with
+      | FBuiltin name =>
+          if bytes_eqb name name_ToUpper && negb (empty_name (isrc1 i)) && empty_name (isrc2 i) then
+            match tcolumn t (isrc1 i) with
+            | Some (ty, cells) =>
+                if ctype_eqb ty TString || ctype_eqb ty TEnum then
+                  match omap (upper_cell ut) cells with
+                  | Ok out => Some (Some (tset_col t (idst i) ty out))
+                  | _ => Some None
+                  end
+                else Some None
+            | None => Some None
+            end
+          else Some None
+      | _ => Some None
+      end
+  | other => other
+  end.
+
 (* one instruction of FilteredApply on the table t, sel marking the rows that match the clause:
    None = invalid (Err), Some None = open *)
-Definition tfiltered_instr (t : table) (sel : list bool) (i : instr) : option (option table) :=
+Definition tfiltered_instr (ut : upper_table) (t : table) (sel : list bool) (i : instr) : option (option table) :=
   let tm := mkTable (tnames t) (ttypes t) (keep_sel sel (trows t)) in
-  match tapply_instr tm i with
+  match tapply_instr_ut ut tm i with
   | None => None
   | Some None => Some None
   | Some (Some tm') =>
@@ -185,6 +216,15 @@ Definition tfiltered_instr (t : table) (sel : list bool) (i : instr) : option (o
       | F0ColName src => if bytes_eqb src (idst i) then Some (Some t) else
           match tcolumn tm' (idst i) with
           | Some (ty, cells) => Some (Some (tset_col t (idst i) ty (spread sel cells (zero_cell ty))))
+          | None => Some None
+          end
+      | FBuiltin _ =>
+          (* the built-in's own zero value: the empty string for a string column ("the zero/null value" of the
+             statement is read as either; a user function of string result leaves null), null for an enum *)
+          match tcolumn tm' (idst i) with
+          | Some (ty, cells) =>
+              let filler := match ty with TString => CStr (Some []) | _ => zero_cell ty end in
+              Some (Some (tset_col t (idst i) ty (spread sel cells filler)))
           | None => Some None
           end
       | _ =>
@@ -467,7 +507,7 @@ Definition check_frame_case (c : frame_case) : N :=
         else match abs f with
              | Ok t =>
                  match fold_left (fun acc i => match acc with
-                                               | Some (Some t') => tapply_instr t' i
+                                               | Some (Some t') => tapply_instr_ut ut t' i
                                                | other => other
                                                end) is (Some (Some t)) with
                  | Some (Some t') => expect_table t' out
@@ -489,7 +529,7 @@ Definition check_frame_case (c : frame_case) : N :=
                      the other rows of its destination column get the zero value of the column's type *)
                   let sel := map (fun p => existsb (Nat.eqb p) rows) (ix f) in
                   match fold_left (fun acc i => match acc with
-                                                | Some (Some t') => tfiltered_instr t' sel i
+                                                | Some (Some t') => tfiltered_instr ut t' sel i
                                                 | other => other
                                                 end) is (Some (Some t)) with
                   | Some (Some t') => expect_table t' out
